@@ -453,6 +453,7 @@ func runLogProp(cfg logRunCfg) func(seed int64, tier string, outDir string) *res
 				runAppendScenarios(xr, na, st, xf)
 			} else if cfg.prop == "C16" {
 				runGapScenarios(xr, na/5+1, st, xf)
+				runMixedSortScenarios(xr, na/2+1, st, xf)
 			} else if cfg.prop == "C17" {
 				runPinFaultScenarios(xr, na, st, xf)
 			} else if cfg.prop != "C06" {
